@@ -12,6 +12,7 @@ CLAIMED = {
  "C15": ("TREE over update letters with last() at every state, cyclic/constant extensions for long windows, all two-level chains; run under two build profiles (release; debug assertions + overflow checks)", "2.C15"),
  "C17": ("TREE + CLOSURE: at every node last() purity, clone-at-birth equality, clone independence, clone/original agreement per continuation letter, fresh-twin replay; state identity = derived Debug", "2.C17"),
  "C18": ("exhaustive cycle drivers: scalar-slot count of the real structs' Debug rendering + counting global allocator at L and 4L", "2.C18"),
+ "C07": ("CLOSURE over Z3 + exhaustive adversarial drivers (every volatile prefix x flat/ramp/step/linear tails) with the documented bound checked at every step (8 ulps slack); lockstep Min/Max/Sma/Alma product", "2.C07"),
  "C08": ("TREE + CLOSURE + long runs with a readiness automaton keyed on values delivered by the stand-alone inner view; never-delivering leaf; finiteness and never-reverts at every node", "2.C08"),
  "C10": ("TREE whose letters are pairs (x,y) at the exact rational scalar: seven real instances in lockstep, exact superposition; exhaustive letter cycles; constant streams", "2.C10"),
  "C12": ("TREE with lockstep instances on a*x+b / -x: exact at Q, bit-exact at f64 for power-of-two scales", "2.C12"),
